@@ -19,7 +19,7 @@ CONF = {
     'pre': [facts_hook],
     'assumptions': [
         'decoders have the shape data -> options -> (PacketBuilder calls, terminator) (source facts F1/F1b)',
-        'C01_total: progress hypothesis - a decoder that continues has added a layer whose payload is strictly shorter than its input (the framework itself has no recursion bound); recursion depth <= |data|+1',
+        'C01_total: progress hypothesis - a decoder that continues has added a layer whose payload is strictly shorter than its input, or empty (the framework itself has no recursion bound); recursion depth <= |data|+1',
         'C01_error_discipline: no decoder calls SetErrorLayer (F2: exactly one does, decodeSCTPChunkTypeUnknown - known finding) and none constructs a DecodeFailure (F8)',
         'no recover() inside layers/ (F3)',
         'recovery on (SkipDecodeRecovery=false)',
